@@ -1147,6 +1147,12 @@ pub fn lane_directory(seed: u64) -> Vec<Scenario> {
             docs.push(doc("suite/sub/deeper/nested.md", Format::Md, deep));
             let deep_t = vec![g.test(&Plan::new(Fate::Pass), &mut sim.programs)];
             docs.push(doc("suite/sub/nested.cram", Format::Cram, deep_t));
+            // files the scan must leave alone: other extensions, although they look like documents
+            for other in ["suite/notes.txt", "suite/doc0.md.bak", "suite/sub/readme.mdx", "suite/sub/case.t.orig"] {
+                let mut o = doc(other, if other.contains(".t.") { Format::Cram } else { Format::Md }, vec![g.test(&Plan::new(Fate::WrongOutput), &mut sim.programs)]);
+                o.main = false;
+                docs.push(o);
+            }
             let mut cli = Cli::default();
             cli.as_directory = true;
             let mut sc = Scenario {
